@@ -289,14 +289,20 @@ func (p *c12) exec(t *testing.T, scAny any) Outcome {
 		}
 		// "start#1" = only the first invocation of the producer fails, "#2" only the second
 		// (an S/MIME message invokes every producer twice per WriteTo)
-		if i := strings.Index(where, "#"); i >= 0 {
-			spec.contentAt(j).FailOnCall = int(where[i+1] - '0')
+		// "mid!eof" = the producer fails with an error of that identity (ErrKinds)
+		w := where
+		if i := strings.Index(w, "!"); i >= 0 {
+			spec.contentAt(j).ErrKind = w[i+1:]
+			w = w[:i]
 		}
-		pos(spec.contentAt(j), strings.SplitN(where, "#", 2)[0])
+		if i := strings.Index(w, "#"); i >= 0 {
+			spec.contentAt(j).FailOnCall = int(w[i+1] - '0')
+		}
+		pos(spec.contentAt(j), strings.SplitN(w, "#", 2)[0])
 		rr := renderWith(t, sc.Seed, spec, mode, k)
 		evals++
 		if rr.built != nil && rr.built.AnyFired() {
-			out.stat("fault.fired.producer_"+strings.ReplaceAll(where, "#", "_call"), 1)
+			out.stat("fault.fired.producer_"+strings.NewReplacer("#", "_call", "!", "_err-").Replace(where), 1)
 		}
 		m := "producer"
 		if mode != "" {
@@ -344,6 +350,12 @@ func (p *c12) exec(t *testing.T, scAny any) Outcome {
 			}
 			for _, where := range wheres {
 				runProducer(j, where, "", -1)
+			}
+			// the identity of the producer's error must not matter (io.EOF and friends included)
+			for _, ek := range ErrKinds[1:] {
+				for _, where := range []string{"start", "mid", "end"} {
+					runProducer(j, where+"!"+ek, "", -1)
+				}
 			}
 		}
 		// combinations: one producer fault and one sink fault, sampled
